@@ -336,9 +336,17 @@ func (fr *Frame) checkPost(vs []*SVal) {
 	x.curRets = nil
 	if c.HasModifies && !c.ModifiesAll {
 		allowed := map[string]bool{allocName: true}
+		cells := map[string][]string{} // heap -> cells that may change ("" entry: anywhere)
+		oenv := *env
+		oenv.heap = fr.entry // modifies items are evaluated in the pre-state
 		for _, m := range c.Modifies {
-			for _, n := range fr.resolveModifies(m, env) {
-				allowed[n] = true
+			cell := fr.modCell(m, &oenv)
+			for _, n := range fr.resolveModifies(m, &oenv) {
+				if cell == "" {
+					allowed[n] = true
+				} else {
+					cells[n] = append(cells[n], cell)
+				}
 			}
 		}
 		if fr.cur.epoch != fr.entry.epoch {
@@ -365,11 +373,38 @@ func (fr *Frame) checkPost(vs []*SVal) {
 			if strings.HasPrefix(n, "G:") {
 				cond = sEq(t0, t1)
 			} else {
-				cond = "(forall ((r Int)) (=> (<= r " + a0 + ") (= (select " + t1 + " r) (select " + t0 + " r))))"
+				guard := []string{sLe("r", a0)}
+				for _, cl := range cells[n] {
+					guard = append(guard, sNot(sEq("r", cl)))
+				}
+				cond = "(forall ((r Int)) (=> " + sAnd(guard...) + " (= (select " + t1 + " r) (select " + t0 + " r))))"
 			}
 			fr.oblige("frame", n, cond, "modifies clause does not list "+n)
 		}
 	}
+}
+
+// modCell: for a modifies item, the single cell (ref / backing array / map) of each heap that
+// may change; "" when the whole heap may change.
+func (fr *Frame) modCell(m *Node, env *SpecEnv) string {
+	if m.Op == "call" && m.Args[0].Op == "id" {
+		switch m.Args[0].Name {
+		case "elems":
+			v := env.force(env.eval(m.Args[1]))
+			if kindOf(v.T) == KSlice {
+				return v.F[0].Term
+			}
+		case "mapof":
+			v := env.force(env.eval(m.Args[1]))
+			return v.Term
+		}
+		return ""
+	}
+	v := env.eval(m)
+	if v.LV && v.Loc.Kind == LRef {
+		return v.Loc.Base
+	}
+	return ""
 }
 
 // resolveModifies maps a modifies item to heap names.
@@ -386,14 +421,18 @@ func (fr *Frame) resolveModifies(m *Node, env *SpecEnv) []string {
 			v := env.force(env.eval(m.Args[1]))
 			for _, eh := range elemHeaps(elemType(v.T)) {
 				out = append(out, eh.name)
+				fr.cur.sorts[eh.name] = eh.sort
 			}
 			return out
 		case "mapof":
 			v := env.force(env.eval(m.Args[1]))
 			mh := fr.mapInfo(v.T)
 			out = append(out, mh.dom, mh.ln)
+			fr.cur.sorts[mh.dom] = mh.domS
+			fr.cur.sorts[mh.ln] = "(Array Int Int)"
 			for _, l := range mh.valLeaves {
 				out = append(out, mh.valHeapName(l))
+				fr.cur.sorts[mh.valHeapName(l)] = mh.valSort(l)
 			}
 			return out
 		}
@@ -403,8 +442,11 @@ func (fr *Frame) resolveModifies(m *Node, env *SpecEnv) []string {
 		sfail("modifies item %s is not a location", m)
 	}
 	for _, lf := range leavesOf(v.T) {
-		n, _ := v.Loc.heapFor(lf.Path)
+		n, inner := v.Loc.heapFor(lf.Path)
 		out = append(out, n)
+		if len(inner) == 0 {
+			fr.cur.sorts[n] = heapSort(v.Loc.Kind, lf.Sort)
+		}
 	}
 	return out
 }
